@@ -81,6 +81,10 @@ COVERED = {
     "include/AIToolbox/Factored/Utils/FactorGraph.hpp::factorAdjacenciesPool_": ("node-pool", "pool_recycle_independent, pool_is_unobservable, pool_unrelated_graphs"),
     "include/AIToolbox/Factored/Utils/FactorGraph.hpp::FactorGraph<FD>::factorAdjacenciesPool_": ("node-pool", "pool_recycle_independent (definition of the static member)"),
     "src/POMDP/Algorithms/AMDP.cpp::stepSize": ("amdp-static", "amdp_discretizer_independent_refuted / known finding; removed by fixes/C16-amdp-static.patch"),
+    # /verif's own instrumentation (commit 43e6710, compiled only with -DAITOOLBOX_VERIF): the process-wide observer
+    # callbacks of the C03 hook.  Written only by the harness, never by the library; unset (empty) they change nothing.
+    "src/POMDP/Algorithms/GapMin.cpp::bool": ("verif-hook", "C03 observer hook (AITOOLBOX_VERIF only): std::function<bool(const VerifSnapshot&)> observer, set by the C03 harness only"),
+    "src/POMDP/Algorithms/SARSOP.cpp::bool": ("verif-hook", "C03 observer hook (AITOOLBOX_VERIF only): std::function<bool(const VerifSnapshot&)> observer, set by the C03 harness only"),
 }
 _BG = "include/AIToolbox/POMDP/Algorithms/Utils/BeliefGenerator.hpp::"
 _SCR = "mutable-scratch"
